@@ -257,6 +257,11 @@ def lowerFirst (s : String) : String :=
   | [] => s
   | c :: r => if 'A' ≤ c ∧ c ≤ 'Z' then String.ofList (Char.ofNat (c.toNat + 32) :: r) else s
 
+/-- `fncallStartingLowerCase`: the called selector is lower-cased unless that spells a keyword
+(fix bcc471d). -/
+def lowerCall (s : String) : String :=
+  if Gen.keywords.contains (lowerFirst s) then s else lowerFirst s
+
 def capFirst (s : String) : String :=
   match s.toList with
   | [] => s
@@ -285,12 +290,13 @@ inductive BodyStmt where
 
 structure FuncLit where
   params : List (List String)     -- one entry per field; [] = a field without names
+  variadic : Bool                 -- some parameter field has a `...T` type
   results : List (List String)
   body : List BodyStmt
   deriving Repr, DecidableEq
 
 inductive Lam where
-  | unchanged                                                        -- named results
+  | unchanged                                                        -- named results or variadic
   | expr (lhs : List String) (rhs : List Nat) (lhsParen rhsParen : Bool)   -- LambdaExpr
   | blockL (lhs : List String) (body : List BodyStmt) (lhsParen : Bool)    -- LambdaExpr2
   deriving Repr, DecidableEq
@@ -305,6 +311,7 @@ def lambdaLhs (ps : List (List String)) : List String :=
 def toLambda (f : FuncLit) : Lam :=
   let (nres, named) := checkResult f.results
   if !named.isEmpty then .unchanged
+  else if f.variadic then .unchanged      -- fix 1cb36f4
   else
     let lhs := lambdaLhs f.params
     match f.body with
